@@ -230,6 +230,9 @@ func init() {
 			x.globalsCheck(mk, label, names)
 			return nil
 		},
+		"vTempFile": func(x *Exec, fr *frame, fn *ssa.Function, a []Value) Value {
+			return x.ts.StrOf("/verif-mem/" + cstr(x, a[0], "tag"))
+		},
 		"vConcurrent": func(x *Exec, fr *frame, fn *ssa.Function, a []Value) Value {
 			// the engine decides the footprint of one execution; natively the function is
 			// run in two goroutines under the race detector
